@@ -279,8 +279,35 @@ func (x *X) convert(v Val, from, to types.Type) Val {
 }
 
 func (x *X) instr(fr *frame, b *ssa.BasicBlock, in ssa.Instruction, only map[int]bool) {
+	if x.mode == modeVC && len(x.stack) == 1 && x.siteAsserts != nil {
+		x.fireSiteAsserts(fr, in)
+	}
 	switch in := in.(type) {
 	case *ssa.DebugRef:
+		if name := debugName(in); name != "" {
+			if fr.names == nil {
+				fr.names = map[string]func() TV{}
+			}
+			if v, ok := fr.vals[in.X]; ok || isConst(in.X) {
+				if !ok {
+					func() {
+						defer func() { recover() }()
+						v = x.get(fr, in.X)
+					}()
+				}
+				if v != nil {
+					val, t := v, in.X.Type()
+					if in.IsAddr {
+						if p, isPtr := val.(Ptr); isPtr {
+							et := t.Underlying().(*types.Pointer).Elem()
+							fr.names[name] = func() TV { return TV{x.load(p), et} }
+						}
+					} else {
+						fr.names[name] = func() TV { return TV{val, t} }
+					}
+				}
+			}
+		}
 	case *ssa.BinOp:
 		fr.vals[in] = x.nameVal(in.Name(), x.binop(fr, in))
 	case *ssa.UnOp:
@@ -932,4 +959,59 @@ func (x *X) bvAxioms() {
 	a("(forall ((x Int) (j Int)) (! (=> (and (> x 0) (<= 0 j) (< j (bv.tz x))) (not (bv.bit x j))) :pattern ((bv.tz x) (bv.bit x j))))")
 	// extensionality (instantiated where a specification mentions bv.diff)
 	a("(forall ((x Int) (y Int)) (! (=> (and (<= 0 x) (<= 0 y) (< x 18446744073709551616) (< y 18446744073709551616) (not (= x y))) (and (<= 0 (bv.diff x y)) (< (bv.diff x y) 64) (not (= (bv.bit x (bv.diff x y)) (bv.bit y (bv.diff x y)))))) :pattern ((bv.diff x y))))")
+}
+
+// fireSiteAsserts emits the obligations of `assert at "text": expr` contract
+// lines when execution reaches the first instruction of a source line
+// containing the text. The expression sees the source-level names assigned so far.
+func (x *X) fireSiteAsserts(fr *frame, in ssa.Instruction) {
+	if _, isDbg := in.(*ssa.DebugRef); isDbg {
+		return
+	}
+	pos := in.Pos()
+	if !pos.IsValid() {
+		return
+	}
+	line := x.prog.lineText(pos)
+	if line == "" {
+		return
+	}
+	for i, sa := range x.siteAsserts {
+		if !strings.Contains(line, sa.At) {
+			continue
+		}
+		key := fmt.Sprintf("%d|%d", i, x.prog.Fset.Position(pos).Line)
+		if fr.fired == nil {
+			fr.fired = map[string]bool{}
+		}
+		if fr.fired[key] {
+			continue
+		}
+		fr.fired[key] = true
+		env := &Env{vars: map[string]TV{}, pkg: pkgOf(fr.fn), old: x.entryState}
+		for _, p := range fr.fn.Params {
+			if v, ok := fr.vals[p]; ok {
+				env.vars[p.Name()] = TV{v, p.Type()}
+			}
+		}
+		for _, fv := range fr.fn.FreeVars {
+			if v, ok := fr.vals[fv]; ok {
+				if p, isPtr := v.(Ptr); isPtr {
+					func() {
+						defer func() { recover() }()
+						env.vars[fv.Name()] = TV{x.load(p), fv.Type().(*types.Pointer).Elem()}
+					}()
+				}
+			}
+		}
+		for n, f := range fr.names {
+			func() {
+				defer func() { recover() }()
+				env.vars[n] = f()
+			}()
+		}
+		x.polarity = 1
+		goal := x.evalBool(env, sa.Expr)
+		x.oblige("assert", fmt.Sprintf("at %q: %s", sa.At, sa.Expr), pos, goal)
+	}
 }
